@@ -143,15 +143,33 @@ where
     }
 }
 
+#[cfg(feature = "verif")]
+impl<T: Display + Ord> Criteria<T> {
+    fn verif_cmp_event(&self, other: &Self, ord: Ordering) {
+        if crate::verif::enabled() {
+            let join = |c: &Self| c.values.iter().map(|v| v.to_string()).collect::<Vec<_>>().join("\u{1f}");
+            crate::verif::emit("cmp", &[
+                ("a", join(self)),
+                ("b", join(other)),
+                ("ord", format!("{:?}", ord)),
+            ]);
+        }
+    }
+}
+
 impl<T: Display + Ord> Ord for Criteria<T> {
     fn cmp(&self, other: &Self) -> Ordering {
         for i in 0..(self.values.len().min(other.values.len())) {
             let ord = self.cmp_at(other, i);
             if ord != Ordering::Equal {
+                #[cfg(feature = "verif")]
+                self.verif_cmp_event(other, ord);
                 return ord;
             }
         }
 
+        #[cfg(feature = "verif")]
+        self.verif_cmp_event(other, self.values.len().cmp(&other.values.len()));
         self.values.len().cmp(&other.values.len())
     }
 }
